@@ -25,7 +25,7 @@ namespace Pc.Drv
 open Pc.PsCore
 
 /-- the decoded pre-sieve buffers, computed once per process on first use -/
-def psTabs : Thunk (Array Pc.Sieve.Bytes) := Thunk.mk fun _ => preTabsDecoded
+def psTabs : Thunk (Array Pc.Sieve.Bytes) := Thunk.mk fun u => preTabsDecoded u
 
 def psHex (bs : Array Nat) : String :=
   let d := "0123456789abcdef".toList.toArray
